@@ -1,16 +1,16 @@
 \* slice "kinds": two fields over all kinds, all options on either, every message
 SPECIFICATION MCSpec
 CONSTANTS FieldKinds <- AllPlain
-          ConstTexts <- C_three
+          ConstTexts <- C_two
           AttrNames <- Nm_one
-          Widths <- W_all
+          Widths <- W_one
           AllowLeft = TRUE
-          Fmts <- Fm_two
+          Fmts <- Fm_one
           Seps <- Sp_one
           MaxFields = 2
           FullOnly = TRUE
           Ascending = FALSE
-          MsgIds <- M_three
+          MsgIds <- M_two
           Sels <- Sel_none
           StreamPieces <- P_none
           MaxGlobal = 1
